@@ -1072,6 +1072,10 @@ def str_method(I, s, name, args, kwargs):
         r = SP.strip(s)
         if r is not SP.NOTFOUND:
             return r
+    if name == 'lstrip' and len(args) == 1 and isinstance(args[0], str):
+        r = SP.lstrip_char(I, s, args[0])
+        if r is not SP.NOTFOUND:
+            return r
     if name in ('lower', 'upper', 'strip', 'lstrip', 'rstrip', 'title', 'casefold'):
         return I.env.str_fun(I, name, s, args)
     if name == 'split':
